@@ -291,6 +291,31 @@ CHECKS["C04"] = dict(
               "the stepper methods, z3 equality of all results per path",
     design="2/C04")
 
+CHECKS["C01"] = dict(
+    level="other",
+    text="Partial: (b) the Cython sources of LinkedListNNPS (NNPS.update, "
+         "_compute_bounds, _refresh, _bin, _get_number_of_cells, "
+         "find_nearest_neighbors, ...) and the inline index functions of "
+         "nnps_base.pxd are lowered to Python and executed on exact-real "
+         "positions and smoothing lengths of n<=3 particles in 1-2 arrays "
+         "(dim 1, 2; also after a move + update()); on every path z3 decides "
+         "that each returned neighbour list has valid, distinct indices and "
+         "equals the brute-force set {j: d^2 < (rs max(hi,hj))^2} (pairs "
+         "exactly on the cut-off excepted); out-of-bounds array accesses of "
+         "the lowered code are reported. (a) index lemmas on the lowered "
+         "inline functions (stencil sufficiency, flatten injective, "
+         "get_valid_cell_index) and a source check that all 8 CPU "
+         "*_nnps.pyx use the symmetric acceptance test.",
+    note="only the default algorithm is executed end to end; the other 11 "
+         "are covered by the lemmas/acceptance check only; cache off, "
+         "sequential, exact reals, max(h)=0.5 in most units (cell size 1), "
+         "paths capped by a deadline (incomplete units are listed); "
+         "Cython->Python lowering and array models trusted",
+    technique="symbolic execution of Cython source lowered to Python on z3 "
+              "proxies, per-path SMT query against the brute-force "
+              "neighbour predicate, replay on the compiled NNPS",
+    design="2/C01")
+
 NOT_APPLICABLE = {
     "C05": "whole-application runs of compiled OpenMP code compared across "
            "configurations up to summation order: no unit a solver can "
